@@ -263,22 +263,31 @@ impl<K: Eq, V> HashMap<K, V> {
     pub fn into_keys(self) -> impl Iterator<Item = K> { self.into_iter().map(|e| e.0) }
     pub fn into_values(self) -> impl Iterator<Item = V> { self.into_iter().map(|e| e.1) }
     pub fn drain(&mut self) -> Taking<'_, (K, V)> { Taking { s: &mut self.v, i: 0 } }
-    pub fn entry(&mut self, k: K) -> Entry<'_, K, V> { Entry { m: self, k } }
+    pub fn entry(&mut self, k: K) -> Entry<'_, K, V> {
+        match self.pos(&k) { Some(i) => Entry::Occupied(OccupiedEntry { m: self, i }), None => Entry::Vacant(VacantEntry { m: self, k }) }
+    }
 }
-pub struct Entry<'a, K, V> { m: &'a mut HashMap<K, V>, k: K }
-impl<'a, K: Eq, V> Entry<'a, K, V> {
-    pub fn or_insert_with<F: FnOnce() -> V>(self, f: F) -> &'a mut V {
-        let i = match self.m.pos(&self.k) { Some(i) => i, None => self.m.v.put((self.k, f())) };
-        &mut self.m.v.at_mut(i).as_mut().unwrap().1
-    }
-    pub fn or_insert(self, v: V) -> &'a mut V { self.or_insert_with(|| v) }
-    pub fn or_default(self) -> &'a mut V where V: Default { self.or_insert_with(V::default) }
-    pub fn and_modify<F: FnOnce(&mut V)>(self, f: F) -> Self {
-        if let Some(i) = self.m.pos(&self.k) { f(&mut self.m.v.at_mut(i).as_mut().unwrap().1); }
-        self
-    }
+/// std-style entry API (enum with Occupied / Vacant, plus the or_insert family)
+pub enum Entry<'a, K, V> { Occupied(OccupiedEntry<'a, K, V>), Vacant(VacantEntry<'a, K, V>) }
+pub struct OccupiedEntry<'a, K, V> { m: &'a mut HashMap<K, V>, i: usize }
+pub struct VacantEntry<'a, K, V> { m: &'a mut HashMap<K, V>, k: K }
+impl<'a, K: Eq, V> OccupiedEntry<'a, K, V> {
+    pub fn into_mut(self) -> &'a mut V { &mut self.m.v.at_mut(self.i).as_mut().unwrap().1 }
+    pub fn get(&self) -> &V { &self.m.v.at(self.i).as_ref().unwrap().1 }
+    pub fn get_mut(&mut self) -> &mut V { &mut self.m.v.at_mut(self.i).as_mut().unwrap().1 }
+    pub fn remove(self) -> V { self.m.v.at_mut(self.i).take().unwrap().1 }
+}
+impl<'a, K: Eq, V> VacantEntry<'a, K, V> {
+    pub fn insert(self, v: V) -> &'a mut V { let i = self.m.v.put((self.k, v)); &mut self.m.v.at_mut(i).as_mut().unwrap().1 }
     pub fn key(&self) -> &K { &self.k }
 }
+impl<'a, K: Eq, V> Entry<'a, K, V> {
+    pub fn or_insert_with<F: FnOnce() -> V>(self, f: F) -> &'a mut V { match self { Entry::Occupied(e) => e.into_mut(), Entry::Vacant(e) => e.insert(f()) } }
+    pub fn or_insert(self, v: V) -> &'a mut V { self.or_insert_with(|| v) }
+    pub fn or_default(self) -> &'a mut V where V: Default { self.or_insert_with(V::default) }
+    pub fn and_modify<F: FnOnce(&mut V)>(mut self, f: F) -> Self { if let Entry::Occupied(e) = &mut self { f(e.get_mut()); } self }
+}
+pub mod hash_map { pub use super::{Entry, OccupiedEntry, VacantEntry}; }
 impl<K, V> IntoIterator for HashMap<K, V> { type Item = (K, V); type IntoIter = OwnedIter<(K, V)>; fn into_iter(self) -> Self::IntoIter { OwnedIter { s: self.v, i: 0 } } }
 impl<'a, K, V> IntoIterator for &'a HashMap<K, V> {
     type Item = (&'a K, &'a V);
